@@ -268,6 +268,10 @@ def finish(prop: str, tier: str, checker: Checker, obs: list[Ob], started: float
         "wall_s": round(time.time() - started, 3),
         "violations": len(violations),
     }
+    if os.environ.get("NGOSA_DUMP"):
+        with open(os.environ["NGOSA_DUMP"], "w", encoding="utf-8") as fh:
+            json.dump([[ob.rule, ob.func, ob.sig, ob.ok] for ob in obs], fh)
+        return 1 if violations else 0  # a side run of the thorough tier: no evidence, no output
     with open(os.path.join(EVIDENCE_DIR, f"{prop}.json"), "w", encoding="utf-8") as fh:
         json.dump(evidence, fh, indent=1, sort_keys=False)
     print(f"[{prop}] tier={tier} obligations={len(obs)} discharged={coverage['discharged']} known={len(known_hits)} violations={len(violations)} wall={evidence['wall_s']}s")
